@@ -3,7 +3,7 @@ import torch
 from hypothesis import strategies as st
 
 from ..core import Sub
-from ..gens import build_scenario, hedge_list, scenario, seed_s, simulate
+from ..gens import OPTIONS, build_derivative, build_primary, build_scenario, hedge_list, scenario, seed_s, simulate
 
 PROPERTY_ID = "C02"
 ASSUMPTIONS = [
@@ -18,7 +18,10 @@ VOL = {"volatility", "variance"}
 
 @st.composite
 def c02_case(draw):
-    sc = draw(scenario(min_steps=3, max_steps=9, max_paths=5))
+    sc = draw(scenario(min_steps=3, max_steps=9, max_paths=5, long_horizon=40))
+    if sc["deriv"]["type"] not in OPTIONS and sc["model"] in ("linear", "mlp", "recurrent") and draw(st.integers(0, 2)) == 0:
+        # features of the option family asked of a contract outside it: used where the library offers them (probed at run time)
+        sc["probe"] = draw(st.lists(st.sampled_from(["moneyness", "log_moneyness", "max_moneyness", "time_to_maturity"]), min_size=1, max_size=2, unique=True))
     if sc["ul"]["type"] == "VasicekRate":
         # logs of a possibly negative rate are NaN from the start; keep the comparison meaningful
         sc["inputs"] = [f for f in sc["inputs"] if "log" not in f] or ["underlier_spot"]
@@ -59,7 +62,30 @@ def restore(saved):
         ul.register_buffer(name, buf)
 
 
+def offered(case, ctx):
+    """The probed feature names this derivative type offers (AttributeError = not offered, as on the reference tree)."""
+    from pfhedge.features import get_feature
+
+    ul = build_primary(case["ul"])
+    d = build_derivative(case["deriv"], ul)
+    torch.manual_seed(0)
+    d.simulate(n_paths=1)
+    ok = []
+    for name in case["probe"]:
+        try:
+            get_feature(name).of(d).get(None)
+            ok.append(name)
+        except AttributeError:
+            ctx.exclude("feature-not-offered-for-this-derivative")
+    return ok
+
+
 def check_nonanticipative(case, ctx):
+    if case.get("probe"):
+        extra = [n for n in offered(case, ctx) if n not in case["inputs"]]
+        keep = [f for f in case["inputs"] if f != "prev_hedge"]
+        case = dict(case, inputs=keep + extra + (["prev_hedge"] if "prev_hedge" in case["inputs"] else []))
+        ctx.cls("probed-features-offered:%d" % len(extra))
     objs = build_scenario(case)
     deriv, hedger, hedge = objs["derivative"], objs["hedger"], objs["hedge"]
     with ctx.sut("C02/simulate"):
@@ -83,7 +109,8 @@ def check_nonanticipative(case, ctx):
             with ctx.sut("C02/feature/" + fname(f)):
                 f0.append(f.get(None).detach())
         changed_later = False
-        for t in range(0, Tn - 1):
+        cuts = range(0, Tn - 1) if Tn <= 12 else sorted({0, 1, Tn // 2, 254, 255, 256, Tn - 3, Tn - 2})  # long paths: a sample of cuts
+        for t in cuts:
             saved = perturb_future(uls, t, gen)
             try:
                 with ctx.sut("C02/compute_hedge"):
@@ -110,7 +137,7 @@ def check_nonanticipative(case, ctx):
     names = set(map(str, case["inputs"]))
     ctx.nontrivial(changed_later)
     ctx.cls("grad:" + str(bool(case.get("grad", False))), "branch:" + ("stepwise" if feats.is_state_dependent() else "vectorised"), "model:" + case["model"],
-            "deriv:" + case["deriv"]["type"], "ul:" + case["ul"]["type"])
+            "deriv:" + case["deriv"]["type"], "ul:" + case["ul"]["type"], "steps:" + ("long" if Tn > 12 else "short"))
     if names & PATH_STAT or case["model"] in ("bs", "ww") and case["deriv"]["type"] in ("LookbackOption", "AmericanBinaryOption"):
         ctx.cls("feature:path-statistic")
     if names & VOL or case["model"] in ("bs", "ww"):
